@@ -16,8 +16,8 @@ pub fn c06_twin(plan: &Plan, out: &RunOut) -> Option<Violation> {
         // spectator may legitimately change (the host waits for its handshake too)
         return None;
     }
-    if plan.nodes.iter().any(|n| n.tick.stop_us.is_some()) {
-        // when a player dies, the frame at which the others cut it off depends on how far the game
+    if plan.nodes.iter().any(|n| n.tick.stop_us.is_some()) || plan.api.iter().any(|a| matches!(a.call, Api::Disconnect { handle } if handle < plan.cfg.num_players)) {
+        // when a player dies or is dropped through the API, the frame at which the others cut it off depends on how far the game
         // had got, and the host waits for its spectators' handshakes before it starts
         return None;
     }
